@@ -59,7 +59,7 @@ func c09Emit(w *emit.Writer, label string, cs c01issCase, o *c01issObs) {
 	rec.Policy, rec.Script = "script", o.Sched
 	d := map[string]any{"class": cs.Class, "program": label, "backend": cs.Backend, "threads": len(cs.Threads), "faults": len(cs.Faults), "steps": len(o.Steps),
 		"held": o.Held, "recorded": o.Recorded, "deadlock": o.Deadlock}
-	w.Add(emit.Case{Desc: d, In: rec, Obs: o, Wire: c01issWire(9, o), Nontrivial: len(cs.Faults) > 0, Key: fmt.Sprint(label, cs.Backend, len(cs.Threads), cs.Faults, cs.CancelWait, o.Sched)})
+	w.Add(emit.Case{Desc: d, In: rec, Obs: o, Wire: c01issWire(9, o), Nontrivial: len(cs.Faults) > 0, Key: fmt.Sprint(label, cs.Backend, cs.CrashLock, len(cs.Threads), cs.Faults, cs.CancelWait, o.Sched)})
 	w.Hist("program=" + label)
 	w.Hist("backend=" + map[string]string{"": "memory", "file": "file"}[cs.Backend])
 	w.Hist("class=" + cs.Class)
@@ -214,11 +214,15 @@ func runC09(tier string, seed int64, outdir string, replay string) error {
 		if tier != "thorough" && !fileTwo[p.Label] {
 			continue
 		}
-		for v := 0; v < 3; v++ {
+		for v := 0; v < 5; v++ {
 			cs := mk(p, 2)
 			cs.Backend = "file"
 			cs.AllowUnlockFault = false
 			switch v {
+			case 3: // a dead holder's lock file is in the way: empty, or with an old timestamp
+				cs.CrashLock = "stale"
+			case 4:
+				cs.CrashLock = "empty"
 			case 1:
 				cs.CancelWait = map[string]int{"0": 1, "1": 1}
 			case 2:
@@ -233,7 +237,7 @@ func runC09(tier string, seed int64, outdir string, replay string) error {
 		}
 	}
 	w.Meta.Exhaustive = true
-	w.Meta.Universe = fmt.Sprintf("%d operations/configurations x every op index of the fault-free trace x {error, cancel, panic} x {1, 2 threads}, plus the second request cancelled while waiting after 0/2/4 steps x {no fault, error, cancel, panic in the holder} = %d runs on the in-memory Locker (Unlock failures only single-threaded); plus random two-fault plans; on the gated FileStorage every op index x fault for one instance and three two-instance plans for %d programs = %d runs", len(c09Programs()), total, len(fileTwo), nfile)
+	w.Meta.Universe = fmt.Sprintf("%d operations/configurations x every op index of the fault-free trace x {error, cancel, panic} x {1, 2 threads}, plus the second request cancelled while waiting after 0/2/4 steps x {no fault, error, cancel, panic in the holder} = %d runs on the in-memory Locker (Unlock failures only single-threaded); plus random two-fault plans; on the gated FileStorage every op index x fault for one instance and five two-instance plans (incl. a dead holder's empty / stale lock file) for %d programs = %d runs", len(c09Programs()), total, len(fileTwo), nfile)
 	// random plans with two or three faults (paths only reachable after a first fault: retries, rollbacks)
 	r := rand.New(rand.NewSource(seed))
 	nr := 300
